@@ -505,15 +505,95 @@ pub fn run(thorough: bool) -> Outcome {
         r
     });
     total = total.merge(rep);
+    total = total.merge(mtu_labels());
     Outcome {
         report: total,
-        rule: "frames built from descriptions: every dimension (flags x seq/ack/urg zero-ness; TTL; DF/MF/reserved/ID/ECN/fragment/flow label; IHL; payload; window x MSS x TS) over its whole domain at 6 base frames (v4/v6 x SYN/SYN+ACK/ACK), all pairs of alphabet values across dimensions, 3 framings, all 65536 windows x MSS alphabet x TS x version, DFS over option sequences with three alignment paddings, EOL at every position with every padding, the (kind,length,offset,tail) space of one option; through the TCP pipeline and the unified analyzer; distinct = distinct (signature text, MTU, role) outcomes".into(),
+        rule: "frames built from descriptions: every dimension (flags x seq/ack/urg zero-ness; TTL; DF/MF/reserved/ID/ECN/fragment/flow label; IHL; payload; window x MSS x TS) over its whole domain at 6 base frames (v4/v6 x SYN/SYN+ACK/ACK), all pairs of alphabet values across dimensions, 3 framings, all 65536 windows x MSS alphabet x TS x version, DFS over option sequences with three alignment paddings, EOL at every position with every padding, the (kind,length,offset,tail) space of one option; link labels: 5 databases whose [mtu] groups are unsorted / repeated / shared between groups x every MSS 0..65535 x IPv4/IPv6 SYN (label of the first group in file order that lists the MTU); through the TCP pipeline and the unified analyzer; distinct = distinct (signature text, MTU, role) outcomes".into(),
         exhaustive: true,
         bounds: json!({"option_sequences": seqs.len(), "max_options_in_sequence": if thorough {4} else {3}, "single_option_space": space.len(), "window_sweep_mss": mss_sweep.len()}),
     }
 }
 
+/// The link label of a SYN is looked up in the database's [mtu] groups, whatever their order: databases whose groups
+/// list their values unsorted, repeated, and shared between groups (the first group in file order wins), every MSS
+/// 0..65535 as IPv4 and IPv6 SYN through the TCP pipeline, the unified analyzer and `matching_by_mtu` itself.
+fn mtu_labels() -> Report {
+    let layouts: Vec<Vec<(&str, Vec<u16>)>> = vec![
+        vec![("alpha", vec![1500, 576, 1500]), ("beta", vec![9000, 576, 1, 41]), ("gamma", vec![65535, 1280, 40, 60, 100])],
+        vec![("descending", vec![65535, 9000, 1500, 1492, 576, 296, 61, 60, 41, 40, 0])],
+        vec![("ascending", vec![0, 40, 41, 60, 61, 296, 576, 1492, 1500, 9000, 65535])],
+        vec![("one", vec![1500]), ("two", vec![1499]), ("three", vec![1501]), ("again-one", vec![1500, 1400])],
+        vec![("zigzag", vec![1000, 2000, 500, 3000, 250, 4000, 125, 65000, 60])],
+    ];
+    let mut total = Report::new();
+    for (li, layout) in layouts.iter().enumerate() {
+        let mut text = String::from("classes = unix,win,other\n\n[mtu]\n\n");
+        for (l, vs) in layout {
+            text.push_str(&format!("label = {l}\n"));
+            for v in vs {
+                text.push_str(&format!("sig   = {v}\n"));
+            }
+            text.push('\n');
+        }
+        let dbx: Database = match text.parse() {
+            Ok(d) => d,
+            Err(e) => {
+                total.machinery_error(format!("mtu-labels: database text does not load: {e:?}"));
+                continue;
+            }
+        };
+        let want = |mtu: u16| layout.iter().find(|(_, vs)| vs.contains(&mtu)).map(|(l, _)| l.to_string());
+        if layout.iter().all(|(_, vs)| vs.iter().all(|v| want(*v).is_none())) {
+            total.machinery_error("mtu-labels: vacuous layout");
+        }
+        let rep = par_slices(65536, 4096, |rg| {
+            let mut r = Report::new();
+            let m = huginn_net_tcp::SignatureMatcher::new(&dbx);
+            let mut seq = TcpSeq::new(Some(&dbx), 4);
+            let mut uni = huginn_net::HuginnNet::new(Some(&dbx), 4, Some(huginn_net::AnalysisConfig { http_enabled: false, tcp_enabled: true, tls_enabled: false, matcher_enabled: true })).ok();
+            for v in rg {
+                let v = v as u16;
+                r.exec(1);
+                let direct = guarded(|| m.matching_by_mtu(&v).map(|(l, _)| l.clone()));
+                if direct != Ok(want(v)) {
+                    r.dev("C03/mtu-label/lookup-differs-from-database", "mtu-label", || json!({"kind": "mtu-label", "layout": li, "mtu": v, "expected": want(v), "actual": format!("{direct:?}")}));
+                }
+                for v6 in [false, true] {
+                    let Some(mtu) = v.checked_add(if v6 { 60 } else { 40 }) else { continue };
+                    let f = pkt::build(&Spec { v6, flags: SYN, opts: pad4(mss_opt(v), 1), sport: 40000 + (v % 1000), ..Spec::default() });
+                    // the MTU value itself is judged by the main check (and is a known finding: actual instead of minimal
+                    // header lengths); here the label must be the database's label for the value that IS reported
+                    let _ = mtu;
+                    let a = guarded(|| seq.feed(&f).mtu);
+                    let got = a.clone().map(|x| x.map(|(m, l, _)| (m, l)));
+                    let e = got.clone().ok().flatten().map(|(m, _)| (m, want(m)));
+                    let mtu = e.as_ref().map(|x| x.0).unwrap_or(0);
+                    if got != Ok(e.clone()) || e.is_none() {
+                        r.dev("C03/mtu-label/syn-label-differs-from-database", "mtu-label", || json!({"kind": "mtu-label", "layout": li, "mss": v, "v6": v6, "expected": format!("{e:?}"), "actual": format!("{a:?}")}));
+                    }
+                    r.outcome(&("mtu-label", li, want(mtu).is_some()));
+                    if v % 16 == 0 || want(mtu).is_some() {
+                        if let Some(u) = uni.as_mut() {
+                            let a = guarded(|| crate::drv::uni_res(&u.analyze_tcp(&f)).tcp.mtu);
+                            let got = a.clone().map(|x| x.map(|(m, l, _)| (m, l)));
+                            if got != Ok(e.clone()) {
+                                r.dev("C03/mtu-label/unified-label-differs-from-database", "mtu-label", || json!({"kind": "mtu-label", "layout": li, "mss": v, "v6": v6, "expected": format!("{e:?}"), "actual": format!("{a:?}")}));
+                            }
+                        }
+                    }
+                }
+            }
+            r
+        });
+        total = total.merge(rep);
+    }
+    total
+}
+
 pub fn replay(ex: &Value) -> Report {
+    if ex["kind"].as_str() == Some("mtu-label") {
+        return mtu_labels();
+    }
     let mut r = Report::new();
     match (serde_json::from_value::<Spec>(ex["spec"].clone()), serde_json::from_value::<Link>(ex["link"].clone())) {
         (Ok(s), Ok(l)) => check_frame(&mut r, &s, l, ex["unified"].as_bool().unwrap_or(false), "replay"),
